@@ -943,6 +943,15 @@ func (rule *RuleExpression) checkMatrix(m *Matrix) *ObjectType {
 				continue
 			}
 			if merged, ok := o.Merge(ty).(*ObjectType); ok {
+				if ExprType(merged) == ty {
+					// Merge may return its operand as it is. Keys of the following include elements are
+					// added to this object so it must not be the (shared) type of the evaluated context.
+					props := make(map[string]ExprType, len(merged.Props))
+					for n, p := range merged.Props {
+						props[n] = p
+					}
+					merged = &ObjectType{Props: props, Mapped: merged.Mapped}
+				}
 				o = merged
 			} else {
 				o.Loose()
